@@ -9,7 +9,7 @@ from . import c12 as C12
 
 ID = 'C03'
 TITLE = 'alignment puts all timeseries on the prescribed common index, values intact'
-LEAN_FILES = ['Basic', 'TSBasic', 'Fill', 'FillDriver', 'Align', 'AlignDriver', 'FillLemmas', 'FillIndep', 'FillRows', 'AlignLemmas', 'AlignAsOf', 'AlignTree', 'AlignLimit', 'AlignFill', 'C12', 'C03']
+LEAN_FILES = ['Basic', 'TSBasic', 'Fill', 'FillDriver', 'Align', 'AlignDriver', 'FillAlias', 'FillLemmas', 'FillIndep', 'FillRows', 'FillEdge', 'FillAliasLemmas', 'AlignLemmas', 'AlignAsOf', 'AlignTree', 'AlignLimit', 'AlignFill', 'C12', 'C03']
 RULE = ('distinct protocol lines (container, join policy, fill method, column policy) on which the implementation returned a value '
         'and the container holds at least two timeseries / arrays with different indices / lengths')
 TRUSTED = ['correspondence harness (pv.engine, pv.proto, pv.props._w5ts) and generators of pv.props.c03',
@@ -219,6 +219,10 @@ def generate(rng, tier):
         elif r < 0.80:
             if isinstance(tree, tuple):
                 tree = list(tree)   # df_index does not open a tuple (only df_sync / presync open their top-level container)
+            if not any(isinstance(x, (pd.Series, pd.DataFrame, np.ndarray)) for x in flat(tree)):
+                # every timeseries sits inside a nested tuple: df_index sees none, the index is None and `_df_reindex(ts, None, 'ffill')`
+                # returns `_nona(ts)` (thorough tier, g6).  Outside the statement (nested lists / dicts); the model returns the input: not generated
+                continue
             yield dict(tag='reindex-how/%s/%s/%s' % (shape, how, m), lines=['(align reindex %s %s %s)' % (enc_tree(tree), how, m)])
         elif r < 0.88:
             yield dict(tag='index/%s/%s/%s' % (shape, rel, how), lines=['(align index %s %s)' % (enc_tree(tree), how)])
